@@ -428,3 +428,32 @@ Proof.
   cbn [snd] in outs_plain. subst outs_plain.
   rewrite Forall_forall in F. apply F. apply nth_In. lia.
 Qed.
+
+(* ================================================================== non-vacuity *)
+(* 72 raw bytes: a one-segment stream frame (table: 1 segment of 8 words) holding a struct with a
+   data word, a text field "hi" and a composite list; Unmarshal, then the read API *)
+Definition raw_example : list Z :=
+  [0;0;0;0; 8;0;0;0;
+   0;0;0;0;1;0;2;0;  42;0;0;0;0;0;0;0;  5;0;0;0;26;0;0;0;  5;0;0;0;23;0;0;0;
+   104;105;0;0;0;0;0;0;  8;0;0;0;1;0;0;0;  1;0;0;0;0;0;0;0;  2;0;0;0;0;0;0;0].
+
+Example raw_example_reads :
+  bytes_ok raw_example /\
+  exists segs, FR.unmarshal raw_example = FR.Ok segs /\
+  let c := mkCfg 1000 4 true true in let fx := mkFix true true true in
+  let ops := [ORoot; OSPtr 0 0; OText 1; OUint 0 0 4] in
+  run_dom c fx segs (init_state c) ops = true /\
+  exists p0 p1, run_ops c fx segs ops = [VPtr (Ok p0); VPtr (Ok p1); VBytes (Ok (Some [104; 105])); VNum (Ok 42)].
+Proof.
+  split; [repeat constructor; lia|].
+  eexists. split; [vm_compute; reflexivity|]. cbv zeta. split; [vm_compute; reflexivity|].
+  do 2 eexists. vm_compute. reflexivity.
+Qed.
+
+(* the same bytes packed (packed.Pack of the frame) go through UnmarshalPacked *)
+Example raw_example_packed :
+  exists p, PK.pack_bytes raw_example = Some p /\ bytes_ok p /\
+  FP.unmarshal_packed p = FR.unmarshal raw_example.
+Proof.
+  eexists. split; [vm_compute; reflexivity|]. split; [repeat constructor; lia|]. vm_compute. reflexivity.
+Qed.
